@@ -687,6 +687,18 @@ class Interp:
             if isinstance(v, FuncRef) and getattr(v, 'kind', None) == 'classmethod':
                 return v.bind(obj)
             return v
+        if isinstance(obj, SuperProxy):
+            for b in self.class_bases(obj.owner):
+                v = self.class_getattr(b, name)
+                if isinstance(v, FuncRef):
+                    return v.bind(obj.instance)
+                if v is not None:
+                    return v
+            m = self.models.lookup('builtins.object.' + name)
+            if m is not None:
+                inst = obj.instance
+                return BoundModel(lambda I, r, args, kw: m.fn(I, [r] + list(args), kw), inst)
+            raise PyExc('AttributeError', name)
         if isinstance(obj, ModRef):
             return self.resolve_dotted(obj.dotted + '.' + name)
         if isinstance(obj, Opaque):
@@ -1432,6 +1444,16 @@ class Interp:
         return FuncRef(frame.module, fn, closure=frame, qual=frame.func.qual + '.<lambda>')
 
     def e_Call(self, e, frame):
+        if isinstance(e.func, ast.Name) and e.func.id == 'super' and not e.args and 'super' not in frame.locals:
+            # zero-argument super(): proxy for the next class after the owner of the current method
+            fr = frame
+            while fr is not None and fr.func.owner is None:
+                fr = fr.parent
+            if fr is None:
+                raise Unsupported('super() outside a method')
+            a = fr.func.node.args
+            first = (a.posonlyargs + a.args)[0].arg
+            return SuperProxy(fr.func.owner, fr.locals[first])
         f = self.eval(e.func, frame)
         args = []
         for a in e.args:
@@ -1581,6 +1603,11 @@ class Interp:
         if isinstance(obj, Opaque):
             return
         raise Unsupported('item assignment on %s' % type(obj).__name__)
+
+
+class SuperProxy:
+    def __init__(self, owner, instance):
+        self.owner, self.instance = owner, instance
 
 
 class GenResult:
